@@ -286,39 +286,71 @@ def _map_strings(t, f):
     return t
 
 
+_TO_STRING = ("From::from", "Into::into", "ToOwned::to_owned", "ToString::to_string", "String::from", "str::to_string", "str::to_owned", "Clone::clone",
+              "str::to_string", "String::clone")
+
+
+def _is_string_conv(e, arg):
+    """the call converts a string (&str / String) into a String"""
+    if peel_ty(e.get("ty", "")) not in ("std::string::String", "alloc::string::String"):
+        return False
+    at = peel_ty(strip(arg).get("ty", "") if isinstance(arg, dict) else "")
+    at2 = peel_ty(arg.get("ty", "")) if isinstance(arg, dict) else ""
+    return at in ("str", "std::string::String", "alloc::string::String") or at2 in ("str", "std::string::String", "alloc::string::String")
+
+
 def _string_builder(t):
-    """a String assembled by unconditional pushes is the text of its pieces:  String::new() / String::from("..") / "..".to_string()
-    followed by push(c) / push_str(x)   ==   format!("..{}..", x)"""
+    """a String assembled by pushes is the text of its pieces:  String::new() / "..".to_string() / x.to_string() followed by push(c) /
+    push_str(x) / insert_str(0, x)   ==   format!("..{}..", x);   when every push sits under one and the same `if c`, the value is
+    `if c { <that text> } else { <the initial text> }`"""
     init, effs = t[2], t[3]
     parts = []
     if init[0] == "call" and init[1] in ("String::new", "Default::default") and not init[2]:
         pass
-    elif init[0] == "call" and init[1] in ("From::from", "ToString::to_string", "Into::into", "ToOwned::to_owned", "str::to_string", "str::to_owned") \
-            and len(init[2]) == 1 and init[2][0][0] == "lit" and isinstance(init[2][0][1], str):
-        parts.append(("lit", init[2][0][1]))
+    elif init[0] == "lit" and isinstance(init[1], str):
+        parts.append(("lit", init[1]))
     elif init[0] == "fmt":
         parts.extend(init[1])
+    elif effs and all(e[0] == "mutcall" and e[1] in _STR_EDITS for e in effs):
+        parts.append(("arg", "", init))         # any other String value followed by pushes
     else:
         return t
     if not effs:
         return t
+    guards = [tuple(e[-1]) for e in effs]
+    if any(guards) and (any(g != guards[0] for g in guards) or len(guards[0]) != 1 or guards[0][0][:3] != ("guard", "if", True)):
+        return t
     for e in effs:
-        if not (e[0] == "mutcall" and e[1] in ("String::push", "String::push_str") and e[2] == "" and len(e[3]) == 1 and not e[-1]):
+        if not (e[0] == "mutcall" and e[1] in _STR_EDITS and e[2] == ""):
             return t
-        x = e[3][0]
-        if x[0] == "lit" and isinstance(x[1], str):
-            parts.append(("lit", x[1]))
-        elif x[0] == "fmt":
-            parts.extend(x[1])
+        if e[1] == "String::insert_str" or e[1] == "String::insert":
+            if not (len(e[3]) == 2 and e[3][0] == ("lit", "0")):
+                return t
+            x, front = e[3][1], True
         else:
-            parts.append(("arg", "", x))
+            if len(e[3]) != 1:
+                return t
+            x, front = e[3][0], False
+        new = [("lit", x[1])] if x[0] == "lit" and isinstance(x[1], str) else list(x[1]) if x[0] == "fmt" else [("arg", "", x)]
+        parts = new + parts if front else parts + new
     merged = []
     for p in parts:
-        if p[0] == "lit" and merged and merged[-1][0] == "lit":
-            merged[-1] = ("lit", merged[-1][1] + p[1])
+        if p[0] == "arg" and p[2][0] == "fmt":
+            sub = list(p[2][1])
         else:
-            merged.append(p)
-    return ("fmt", merged)
+            sub = [p]
+        for q_ in sub:
+            if q_[0] == "lit" and merged and merged[-1][0] == "lit":
+                merged[-1] = ("lit", merged[-1][1] + q_[1])
+            else:
+                merged.append(q_)
+    r = ("fmt", merged)
+    if guards[0]:
+        return _mk_if(guards[0][0][3], r, init)
+    return r
+
+
+_STR_EDITS = ("String::push", "String::push_str", "String::insert_str", "String::insert")
 
 
 def _canon_match_free(scr, arms):
@@ -2013,6 +2045,8 @@ class Norm:
             if name in GENERIC_SENSITIVE and e.get("gen"):
                 name = name + "<" + _last_generic(e["gen"]) + ">"
             args = [self._t(a) for a in e["args"]]
+            if name in _TO_STRING and len(args) == 1 and _is_string_conv(e, e["args"][0]):
+                return args[0]       # &str / String -> String, however it is spelled, is the same text
             if name == "__private::must_use" and len(args) == 1:
                 return args[0]
             if name in TRANSPARENT and len(args) == 1:
@@ -2046,6 +2080,8 @@ class Norm:
                     return inl
             recv = self._t(e["recv"])
             args = [self._t(a) for a in e["args"]]
+            if name in _TO_STRING and not args and _is_string_conv(e, e["recv"]):
+                return recv
             name = {"Vec::is_empty": "slice::is_empty", "Vec::len": "slice::len", "Vec::first": "slice::first", "Vec::last": "slice::last"}.get(name, name)
             if not args and name in ("slice::len", "slice::is_empty"):
                 # length-preserving adaptors: xs.iter().map(f).collect::<Vec<_>>() has as many elements as xs
@@ -2312,8 +2348,18 @@ class Norm:
             if p[0] == "lit":
                 out.append(("lit", p[1]))
             else:
-                out.append(("arg", p[2], self._t(p[1])))
-        return ("fmt", out)
+                at = self._t(p[1])
+                if at[0] == "fmt" and not str(p[2]).strip(" {}:"):
+                    out.extend(at[1])              # the text of a nested format! stands in its place
+                else:
+                    out.append(("arg", p[2], at))
+        merged = []
+        for p in out:
+            if p[0] == "lit" and merged and merged[-1][0] == "lit":
+                merged[-1] = ("lit", merged[-1][1] + p[1])
+            else:
+                merged.append(p)
+        return ("fmt", merged)
 
 
 def _has_try(t):
